@@ -29,6 +29,7 @@ import (
 	"strconv"
 	"strings"
 	"sync"
+	"sync/atomic"
 	"time"
 
 	"github.com/ohler55/slip"
@@ -163,10 +164,16 @@ loop:
 			if n != lastLen {
 				last, lastLen = time.Now(), n
 			} else if 0 < job.StallS && stall < time.Since(last) {
-				res.Hang = true
-				buf := make([]byte, 1<<20)
-				res.Stacks = string(buf[:runtime.Stack(buf, true)])
-				break loop
+				// no trace entry for a while: a hang only if every routine and the program's main
+				// thread are blocked (an untraced loop that is still running is progress)
+				buf := make([]byte, 4<<20)
+				stacks := string(buf[:runtime.Stack(buf, true)])
+				if c17AllBlocked(stacks) {
+					res.Hang = true
+					res.Stacks = stacks
+					break loop
+				}
+				last = time.Now()
 			}
 		}
 	}
@@ -175,6 +182,33 @@ loop:
 	c17TraceMu.Unlock()
 	out, _ := json.Marshal(res)
 	_, _ = os.Stdout.Write(out)
+}
+
+var c17GoroutineRe = regexp.MustCompile(`(?m)^goroutine \d+ \[([^\],]+)`)
+
+// c17AllBlocked: every goroutine evaluating slip code for the program (routines started by run and
+// the program's main thread) is waiting for a lock or a channel.
+func c17AllBlocked(stacks string) bool {
+	seen := false
+	for _, g := range strings.Split(stacks, "\n\n") {
+		if !strings.Contains(g, "(*Run).Call.func1") && !strings.Contains(g, "c17WorkerMain.func") {
+			continue
+		}
+		m := c17GoroutineRe.FindStringSubmatch(g)
+		if m == nil {
+			continue
+		}
+		seen = true
+		switch state := m[1]; {
+		case strings.HasPrefix(state, "chan receive"), strings.HasPrefix(state, "chan send"),
+			strings.HasPrefix(state, "sync.Mutex.Lock"), strings.HasPrefix(state, "semacquire"),
+			strings.HasPrefix(state, "sync.RWMutex"), strings.HasPrefix(state, "sync.Cond.Wait"),
+			strings.HasPrefix(state, "sync.WaitGroup.Wait"), strings.HasPrefix(state, "select (no cases)"):
+		default:
+			return false
+		}
+	}
+	return seen
 }
 
 // ---------------------------------------------------------------------------------------------
@@ -384,7 +418,12 @@ func (p *c17Prog) render(b *strings.Builder, r int, ss []c17Stmt, held []int, lo
 		case "yield":
 			b.WriteString(" (vyield)")
 		case "burst":
-			fmt.Fprintf(b, " (dotimes (i%d %d) (with-mutex-lock *m%d* %s))", depth, s.N, p.Guards[s.K], p.writeExpr(s.K, "(1+ "+p.readExpr(s.K)+")"))
+			if p.Family == "sync" {
+				// single writer: no mutex
+				fmt.Fprintf(b, " (dotimes (i%d %d) %s)", depth, s.N, p.writeExpr(s.K, "(1+ "+p.readExpr(s.K)+")"))
+			} else {
+				fmt.Fprintf(b, " (dotimes (i%d %d) (with-mutex-lock *m%d* %s))", depth, s.N, p.Guards[s.K], p.writeExpr(s.K, "(1+ "+p.readExpr(s.K)+")"))
+			}
 		case "fail":
 			for i := len(held) - 1; i >= 0; i-- {
 				fmt.Fprintf(b, " (vtrace 'ex %d %d)", r, held[i])
@@ -969,7 +1008,10 @@ func c17GenTables(rng *lib.Rng, maxOps int, definers, warm bool) *c17Prog {
 				forms = append(forms, fmt.Sprintf("(let ((*print-base* %d)) (write-to-string %d))", []int{2, 8, 16, 36}[rng.Intn(4)], n*7919))
 			case 9:
 				// generic dispatch on prelude classes (fills and reads the dispatch cache)
-				forms = append(forms, fmt.Sprintf("(list (c17g (make-instance 'c17k%d) %d) (c17g (make-instance 'c17k%d) %d) (c17h %d \"s\") (c17h 'y %d))", rng.Intn(4), n, rng.Intn(4), n+1, n, n))
+				// the second argument's type varies: new (type, type) keys enter the cache while
+				// other routines dispatch
+				ys := []string{strconv.Itoa(n), "\"s\"", "'sym", "1.5", "(list 1 2)", "#\\a", "nil", "t", "1/3"}
+				forms = append(forms, fmt.Sprintf("(list (c17g (make-instance 'c17k%d) %s) (c17g (make-instance 'c17k%d) %s) (c17h %d \"s\") (c17h 'y %s))", rng.Intn(4), ys[rng.Intn(len(ys))], rng.Intn(4), ys[rng.Intn(len(ys))], n, ys[rng.Intn(len(ys))]))
 			case 10:
 				// flavor instances and methods defined in the prelude
 				forms = append(forms, fmt.Sprintf("(let ((o (make-instance 'c17fl%d :x %d))) (send o :set-x (+ (send o :x) 1)) (list (send o :bump 2) (send o :twice) (send o :x)))", rng.Intn(3), n))
@@ -1271,14 +1313,29 @@ func c17FirstLines(s string, n int) string {
 
 var c17BlockedRe = regexp.MustCompile(`(?s)goroutine \d+ \[(sync\.Mutex\.Lock|chan send|chan receive|semacquire)[^\]]*\]:\n(.*?)\n\n`)
 
-// the slip frame of the first goroutine blocked in a lock or a channel operation
+// the slip frame of a goroutine blocked in a lock (preferred) or a channel operation
 func c17BlockedFrame(stacks string) string {
+	best, rank := "-", 9
 	for _, m := range c17BlockedRe.FindAllStringSubmatch(stacks+"\n\n", -1) {
-		if f := c17TopSlipFrame(m[2]); f != "-" && !strings.Contains(f, "c17") {
-			return m[1][:strings.IndexAny(m[1]+" ", " ")] + "@" + f
+		f := c17TopSlipFrame(m[2])
+		if f == "-" || strings.Contains(f, "c17") {
+			continue
+		}
+		kind := m[1][:strings.IndexAny(m[1]+" ", " ")]
+		r := 3
+		switch {
+		case strings.HasPrefix(m[1], "sync.Mutex") || kind == "semacquire":
+			r = 0
+		case strings.HasPrefix(m[1], "chan send"):
+			r, kind = 1, "chan-send"
+		case strings.HasPrefix(m[1], "chan receive"):
+			r, kind = 2, "chan-receive"
+		}
+		if r < rank {
+			best, rank = kind+"@"+f, r
 		}
 	}
-	return "-"
+	return best
 }
 
 func c17ValString(e c17Ev) string {
@@ -1364,6 +1421,13 @@ func c17Cells() []*c17Case {
 		q := &c17Prog{Family: "sync", Shape: "own-slot", Kinds: []string{"cslot", "cslot", "cslot"}, Guards: []int{0, 1, 2}}
 		q.Routines = p.Routines
 		mk("sync-clos-slots", q)
+		for _, kind := range []string{"fslot", "cslot", "global"} {
+			b := &c17Prog{Family: "sync", Shape: "own-slot-burst", Kinds: []string{kind, kind, kind, kind}, Guards: []int{0, 1, 2, 3}, Burst: true}
+			for r := 0; r < 4; r++ {
+				b.Routines = append(b.Routines, []c17Stmt{{Kind: "burst", N: 30000, K: r}})
+			}
+			cells = append(cells, &c17Case{Prog: b, Cell: "burst-own-" + kind, Procs: []int{4, 16}})
+		}
 	}
 	// printing from several routines at once (pretty printer, format directives, print variables)
 	{
@@ -1374,7 +1438,12 @@ func c17Cells() []*c17Case {
 				id := fmt.Sprintf("%d-%d", r, i)
 				switch i % 4 {
 				case 0:
-					forms = append(forms, fmt.Sprintf("(let ((*print-pretty* t) (*print-right-margin* %d)) (write-to-string '(alpha-%s (beta %d gamma) (delta epsilon (zeta %d (eta theta))) \"str\")))", 8+(i*7+r)%25, id, i, r))
+					// nesting grows with i: the printer's indentation grows step by step
+					nest := "(omega psi)"
+					for d := 0; d < 1+i/6; d++ {
+						nest = fmt.Sprintf("(lambda-%d kappa-%d %s mu)", d, i, nest)
+					}
+					forms = append(forms, fmt.Sprintf("(let ((*print-pretty* t) (*print-right-margin* %d)) (write-to-string '(alpha-%s (beta %d gamma) %s \"str\")))", 8+(i*7+r)%25, id, i, nest))
 				case 1:
 					forms = append(forms, fmt.Sprintf("(format nil \"~A|~D|~S|~5,'0D|~X|~R\" 'sym-%s %d \"s%d\" %d %d %d)", id, i, i, i, i*31, i))
 				case 2:
@@ -1386,6 +1455,37 @@ func c17Cells() []*c17Case {
 			p.Tables = append(p.Tables, forms)
 		}
 		cells = append(cells, &c17Case{Prog: p, Cell: "print", Procs: []int{4, 16}})
+	}
+	// generic dispatch from several routines at once with argument types not seen before: all
+	// routines walk through the same generic functions in the same order, so they fill the same
+	// dispatch caches at about the same time
+	{
+		var pre strings.Builder
+		for g := 0; g < 24; g++ {
+			fmt.Fprintf(&pre, "(defgeneric c17d%d (a))\n(defmethod c17d%d ((a t)) (list 'any-%d))\n(defmethod c17d%d ((a fixnum)) (list 'fix-%d))\n(c17d%d 1)\n(c17d%d nil)\n", g, g, g, g, g, g, g)
+		}
+		p := &c17Prog{Family: "tables", Shape: "dispatch", Prelude: pre.String()}
+		ys := []string{"\"s\"", "'sym", "1.5", "(list 1 2)", "#\\a", "t", "1/3", "#(1 2)", "12345678901234567890", "(make-hash-table)", "(make-mutex)", ":key"}
+		for r := 0; r < 4; r++ {
+			var forms []string
+			for i := 0; i < 24*len(ys); i++ {
+				forms = append(forms, fmt.Sprintf("(car (c17d%d %s))", i%24, ys[i/24]))
+			}
+			p.Tables = append(p.Tables, forms)
+		}
+		cells = append(cells, &c17Case{Prog: p, Cell: "dispatch", Procs: []int{4, 16}})
+	}
+	// new global variables from several routines at once (the package's variable table)
+	{
+		p := &c17Prog{Family: "tables", Shape: "defvar"}
+		for r := 0; r < 4; r++ {
+			var forms []string
+			for i := 0; i < 300; i++ {
+				forms = append(forms, fmt.Sprintf("(progn (defvar *dv-%d-%d* %d) (setq *dw-%d-%d* %d) (+ *dv-%d-%d* *dw-%d-%d*))", r, i, i, r, i, r, r, i, r, i))
+			}
+			p.Tables = append(p.Tables, forms)
+		}
+		cells = append(cells, &c17Case{Prog: p, Cell: "defvar", Procs: []int{4, 16}})
 	}
 	// defining functions (writes to the package's function table) while other routines evaluate
 	definers := map[string]string{
@@ -1436,8 +1536,8 @@ func c17RaceCells() []*c17Case {
 
 func c17Generate(c *lib.Ctx) []*c17Case {
 	rng := c.Rng
-	maxOps := c.Scale(40, 200)
-	n := c.Scale(44, 160)
+	maxOps := c.Scale(60, 200)
+	n := c.Scale(250, 700)
 	procsAll := []int{1, 2, 4, 16}
 	var cases []*c17Case
 	listedLet := c.Findings.Listed("C17", "cell=counter-let ") || c.Findings.Listed("C17", "cell=burst-let ")
@@ -1546,7 +1646,7 @@ func c17RunCase(c *lib.Ctx, cs *c17Case, bin string, procs int, yieldSeed uint64
 			os.Exit(2)
 		}
 	}
-	run := c17Exec(bin, procs, p.source(false), yieldSeed, 45, 6*time.Minute, cs.Race)
+	run := c17Exec(bin, procs, p.source(false), yieldSeed, 30, 6*time.Minute, cs.Race)
 	return c17CheckRun(c, cs, run, model, seq)
 }
 
@@ -1623,8 +1723,10 @@ func runC17(c *lib.Ctx) {
 			fmt.Fprintln(os.Stderr, "c17: -race worker unavailable:", err)
 		} else {
 			raceAvail = "yes"
-			for _, cs := range c17RaceCells() {
-				jobs = append(jobs, job{cs, 4, rb, 1})
+			for rep := 0; rep < repeat; rep++ {
+				for _, cs := range c17RaceCells() {
+					jobs = append(jobs, job{cs, []int{4, 2, 16}[rep%3], rb, uint64(rep + 1)})
+				}
 			}
 			for _, cs := range c17Cells() {
 				if strings.HasPrefix(cs.Cell, "define-") && c.Findings.Listed("C17", "cell="+cs.Cell+" ") {
@@ -1641,7 +1743,7 @@ func runC17(c *lib.Ctx) {
 			gen := c17Generate(c)
 			c.Rng = saved
 			for i, cs := range gen {
-				if i >= 40 {
+				if i >= 200 {
 					break
 				}
 				rc := *cs
@@ -1658,6 +1760,7 @@ func runC17(c *lib.Ctx) {
 		d  time.Duration
 	}
 	results := make([]result, len(jobs))
+	var hangs, skipped atomic.Int32
 	var wg sync.WaitGroup
 	sem := make(chan struct{}, 4)
 	for i := range jobs {
@@ -1666,15 +1769,31 @@ func runC17(c *lib.Ctx) {
 		go func(i int) {
 			defer wg.Done()
 			defer func() { <-sem }()
+			if 3 <= hangs.Load() {
+				// several programs hung already (each costs the stall period): the verdict is
+				// settled, the remaining programs are not run
+				skipped.Add(1)
+				results[i] = result{jobs[i], nil, -1}
+				return
+			}
 			start := time.Now()
 			vs := c17RunCase(c, jobs[i].cs, jobs[i].bin, jobs[i].procs, jobs[i].seed)
+			for _, v := range vs {
+				if strings.Contains(v.Sig, " hang=") {
+					hangs.Add(1)
+				}
+			}
 			results[i] = result{jobs[i], vs, time.Since(start)}
 		}(i)
 	}
 	wg.Wait()
 
 	validated := 0
+	c.Ev.Coverage["skipped_after_hangs"] = int(skipped.Load())
 	for _, r := range results {
+		if r.d < 0 {
+			continue
+		}
 		p := r.j.cs.Prog
 		nthreads := len(p.threads())
 		if p.Family == "tables" {
